@@ -298,41 +298,85 @@ func c14r10(p *Program, r *Report) {
 	if get == nil {
 		return
 	}
-	g := p.GraphOf(get)
-	info := g.Info
-	ef := g.Events(func(st Step) []string {
-		if st.Kind != StNode {
-			return nil
-		}
-		for _, c := range callsIn(st.Node) {
-			if calleeName(info, c) == "list.(*List).MoveToFront" {
-				return []string{"front"}
+	// every return of Get is either a miss (the map lookup is known to have failed) or comes after MoveToFront;
+	// judged per path on the graph with Get's helpers spliced in, so a lookup-and-touch helper is seen through
+	g := p.GraphOfInl(get)
+	g.markNodes = map[ast.Node]string{}
+	defer func() { g.markNodes = nil }()
+	nfront := 0
+	for _, u := range g.Units() {
+		uinfo := u.Pkg.TypesInfo
+		inspectNoLit(u.Decl.Body, func(x ast.Node) bool {
+			if c, ok := x.(*ast.CallExpr); ok && calleeName(uinfo, c) == "list.(*List).MoveToFront" {
+				g.markNodes[p.stmtOf(c, u)] = "front"
+				nfront++
 			}
-		}
-		return nil
+			return true
+		})
+	}
+	ps := g.GuardFactsPSAbout(func(atom string) bool {
+		return strings.HasPrefix(atom, "§") || strings.HasSuffix(atom, "]") && !strings.ContainsAny(atom, " =<")
 	})
+	okNeverAssigned := false
+	if res := get.Decl.Type.Results; res != nil && len(res.List) > 0 {
+		last := res.List[len(res.List)-1]
+		if len(last.Names) > 0 {
+			obj := get.Pkg.TypesInfo.Defs[last.Names[len(last.Names)-1]]
+			okNeverAssigned = obj != nil
+			ast.Inspect(get.Decl.Body, func(x ast.Node) bool {
+				if as, isA := x.(*ast.AssignStmt); isA {
+					for _, l := range as.Lhs {
+						if isIdentOf(get.Pkg.TypesInfo, l, obj) {
+							okNeverAssigned = false
+						}
+					}
+				}
+				if u, isU := x.(*ast.UnaryExpr); isU && u.Op == token.AND && isIdentOf(get.Pkg.TypesInfo, u.X, obj) {
+					okNeverAssigned = false
+				}
+				return true
+			})
+		}
+	}
 	n := 0
 	for _, e := range g.Exits() {
 		rs, ok := e.Node.(*ast.ReturnStmt)
 		if !ok || e.Kind == ExitPanic {
 			continue
 		}
-		// a hit: the ok result is the constant true (or the named result known true)
-		hit := false
-		if len(rs.Results) == 2 {
-			if tv, has := info.Types[rs.Results[1]]; has && tv.Value != nil && tv.Value.String() == "true" {
-				hit = true
-			}
-		}
-		if !hit {
+		ds, has := ps.Before(rs)
+		if !has {
 			continue
 		}
 		n++
-		s, _ := ef.ExitState(e)
-		r.Check(s.Must["front"], rs, "lru.(*Cache).Get refreshes the recency of the entry it returns", "MoveToFront on every path to the hit", "a hit is returned on a path that does not move the entry to the front: the statement that was just used can be the next one purged (also while its PREPARE is still in flight, which lets a second PREPARE of the same statement start)")
+		okAll := len(ds) > 0
+		for _, d := range ds {
+			if d.m["§front"] {
+				continue
+			}
+			miss := false
+			for atom, v := range d.m {
+				if !v && strings.HasSuffix(atom, "]") {
+					miss = true
+				}
+			}
+			// the found-flag returned is false: the constant, or the named result that nothing ever assigns
+			if len(rs.Results) == 2 {
+				if tv, has := g.Info.Types[rs.Results[1]]; has && tv.Value != nil && tv.Value.String() == "false" {
+					miss = true
+				}
+			}
+			if len(rs.Results) == 0 && okNeverAssigned {
+				miss = true
+			}
+			if !miss {
+				okAll = false
+			}
+		}
+		r.Check(okAll, rs, "lru.(*Cache).Get refreshes the recency of the entry it returns", "MoveToFront on every path that found the key", "a hit is returned on a path that does not move the entry to the front: the statement that was just used can be the next one purged (also while its PREPARE is still in flight, which lets a second PREPARE of the same statement start)")
 	}
-	if n == 0 {
-		r.Unresolved("lru Get has no return that reports a hit")
+	if n == 0 || nfront == 0 {
+		r.Unresolved("lru Get: %d returns, %d MoveToFront calls", n, nfront)
 	}
 }
 
@@ -376,6 +420,42 @@ func c19r9(p *Program, r *Report) {
 				l, rr := a[:i], a[i+2:]
 				if (strings.HasSuffix(l, ".Version()") && ones[rr]) || (strings.HasSuffix(rr, ".Version()") && ones[l]) {
 					okV = true
+				}
+			}
+		}
+		// or through a predicate of the package that is `Version() == 1`
+		for atom, v := range f.m {
+			a := strings.ReplaceAll(atom, " ", "")
+			if v || !strings.HasSuffix(a, "()") {
+				continue
+			}
+			for _, c := range callsIn(fi.Decl.Body) {
+				if strings.ReplaceAll(exprStr(c), " ", "") != a {
+					continue
+				}
+				fn := calleeOf(info, c)
+				if fn == nil {
+					continue
+				}
+				h := p.FuncOf(fn)
+				if h == nil || h.Decl.Body == nil || len(h.Decl.Body.List) != 1 {
+					continue
+				}
+				hrs, isRet := h.Decl.Body.List[0].(*ast.ReturnStmt)
+				if !isRet || len(hrs.Results) != 1 {
+					continue
+				}
+				be, isB := ast.Unparen(hrs.Results[0]).(*ast.BinaryExpr)
+				if !isB || be.Op != token.EQL {
+					continue
+				}
+				hinfo := h.Pkg.TypesInfo
+				for _, pr := range [][2]ast.Expr{{be.X, be.Y}, {be.Y, be.X}} {
+					vc, isC := ast.Unparen(pr[0]).(*ast.CallExpr)
+					one, isOne := constInt(hinfo, pr[1])
+					if isC && isOne && one == 1 && isCallTo(hinfo, vc, "(UUID).Version") {
+						okV = true
+					}
 				}
 			}
 		}
@@ -1107,6 +1187,68 @@ func c13r11(p *Program, r *Report) {
 		}
 		return true
 	})
+	// (c) a search helper: IsIdempotent is `first(entries) == K` where the helper returns something else than K
+	// (the position, which is not negative while K is) at the first entry whose flag is known false, and K behind its loop
+	for _, e := range g.Exits() {
+		rs, ok := e.Node.(*ast.ReturnStmt)
+		if !ok || len(rs.Results) != 1 {
+			continue
+		}
+		be, isB := ast.Unparen(rs.Results[0]).(*ast.BinaryExpr)
+		if !isB || be.Op != token.EQL {
+			continue
+		}
+		for _, pr := range [][2]ast.Expr{{be.X, be.Y}, {be.Y, be.X}} {
+			c, isC := ast.Unparen(pr[0]).(*ast.CallExpr)
+			k, isK := constInt(info, pr[1])
+			if !isC || !isK || k >= 0 {
+				continue
+			}
+			fn := calleeOf(info, c)
+			if fn == nil {
+				continue
+			}
+			h := p.FuncOf(fn)
+			if h == nil || h.Decl.Body == nil || h.Pkg != fi.Pkg {
+				continue
+			}
+			hg := p.GraphOf(h)
+			hf := hg.GuardFacts()
+			inLoopOK, afterOK, other := false, false, false
+			for _, he := range hg.Exits() {
+				hrs, isRet := he.Node.(*ast.ReturnStmt)
+				if !isRet || len(hrs.Results) != 1 {
+					continue
+				}
+				if v, isConst := constInt(h.Pkg.TypesInfo, hrs.Results[0]); isConst {
+					if v == k && !p.inLoop(hrs, h.Decl) {
+						afterOK = true
+					} else {
+						other = true
+					}
+					continue
+				}
+				// a position: the range key / loop index, under a flag known false
+				f, _ := hf.Before(hrs)
+				flagFalse := false
+				for atom, v := range f.m {
+					if !v && strings.HasSuffix(atom, ".Idempotent") {
+						flagFalse = true
+					}
+				}
+				if p.inLoop(hrs, h.Decl) && flagFalse {
+					if nn, isNN := hf.Before(hrs); isNN && nonNegExpr(h.Pkg.TypesInfo, h, nn, hrs.Results[0]) {
+						inLoopOK = true
+						continue
+					}
+				}
+				other = true
+			}
+			if inLoopOK && afterOK && !other {
+				okSome = true
+			}
+		}
+	}
 	r.Check(okSome && bad == "", fi.Decl, "(*Batch).IsIdempotent is false as soon as one entry is not idempotent", "return false under !entry.Idempotent, or an accumulator and-ed with every flag",
 		"IsIdempotent does not answer false for every batch that contains a non-idempotent entry"+ifs(bad != "", " (`"+bad+"` overwrites the result with the flag of the entry at hand: only the last entry counts)", "")+": such a batch passes the idempotence gate and is executed speculatively / retried on another host")
 }
@@ -2754,4 +2896,34 @@ func constOfAny(p *Program, e ast.Expr) string {
 		}
 	}
 	return ""
+}
+
+// nonNegExpr: e is a range key or a loop index that only counts up from a non-negative start (never negative).
+func nonNegExpr(info *types.Info, fi *FuncInfo, f Facts, e ast.Expr) bool {
+	id, ok := ast.Unparen(e).(*ast.Ident)
+	if !ok {
+		return false
+	}
+	obj := info.Uses[id]
+	res := false
+	ast.Inspect(fi.Decl.Body, func(x ast.Node) bool {
+		switch s := x.(type) {
+		case *ast.RangeStmt:
+			if k, isId := s.Key.(*ast.Ident); isId && info.Defs[k] == obj {
+				res = true
+			}
+		case *ast.ForStmt:
+			if as, isA := s.Init.(*ast.AssignStmt); isA && len(as.Lhs) == 1 && len(as.Rhs) == 1 {
+				if k, isId := as.Lhs[0].(*ast.Ident); isId && info.Defs[k] == obj {
+					if v, isC := constInt(info, as.Rhs[0]); isC && v >= 0 {
+						if inc, isInc := s.Post.(*ast.IncDecStmt); isInc && inc.Tok == token.INC && isIdentOf(info, inc.X, obj) {
+							res = true
+						}
+					}
+				}
+			}
+		}
+		return true
+	})
+	return res
 }
